@@ -28,6 +28,7 @@ RULE = (
     "non-trivial = two tasks are alive at the same time and at least one of them enters a block "
     "after the other was started"
 )
+RULE += ' Round 16: the two-task family (L <= 2) with every synchronous block left with an exception.'
 RULE += ' Rounds 10-13: DEEP scripts (one task nests 4-12 (17) blocks next to observers); scopes whose only state comes from a disposable; several spawns into one scope from different positions / tasks, two tasks stepping in one loop iteration, the root running its script in one step.'
 ASSUMPTIONS = [
     "scripts are well nested; blocks still open at the end of a script are closed in LIFO order",
@@ -104,6 +105,15 @@ def programs(tier: str):
             for pos in range(len(root) + 1):
                 for how in ("spawn", "create"):
                     yield {"scripts": [root, child], "starts": [[0, pos, how]]}
+    # family "exit_exc": the synchronous blocks of every task are left WITH AN EXCEPTION (a failing
+    # body whose error the task handles right outside the block) while the other task lives on
+    for root in scripts(2):
+        for child in scripts(2):
+            if not any(op in (0, 1, 3) for op in root + child):
+                continue
+            for pos in range(len(root) + 1):
+                for how in ("spawn", "create"):
+                    yield {"scripts": [root, child], "starts": [[0, pos, how]], "exit_exc": True}
     # family "equal": two / three tasks deriving value-equal updates from one shared scope state
     eq = scripts(2, allowed=(0, 6, 7))
     for root in eq:
@@ -266,6 +276,14 @@ def execute(program, ch: Chooser) -> Result:  # noqa: C901, PLR0915
                 )
         log.append((tid, where, {k: list(v) for k, v in got.items()}))
 
+    def exit_args(kind: str) -> tuple:
+        # family "exit_exc": synchronous blocks are left the way a failing body leaves them (the
+        # exception is handled by the task right outside the block)
+        if program.get("exit_exc") and kind in ("sscope", "updated"):
+            e = ValueError("body failed")
+            return (ValueError, e, None)
+        return (None, None, None)
+
     async def run_task(tid: int, env0: list[dict], in_scope0: bool, soft0: bool) -> None:
         env = [dict(level) for level in env0]
         in_scope, soft = in_scope0, soft0
@@ -365,7 +383,7 @@ def execute(program, ch: Chooser) -> Result:  # noqa: C901, PLR0915
                 if kind == "ascope":
                     await cm.__aexit__(None, None, None)
                 else:
-                    cm.__exit__(None, None, None)
+                    cm.__exit__(*exit_args(kind))
             probe(tid, env, in_scope, soft, f"after-op{i}")
         maybe_start(len(script))
         await w.pause(f"t{tid}.end")
@@ -376,7 +394,7 @@ def execute(program, ch: Chooser) -> Result:  # noqa: C901, PLR0915
             if kind == "ascope":
                 await cm.__aexit__(None, None, None)
             else:
-                cm.__exit__(None, None, None)
+                cm.__exit__(*exit_args(kind))
             probe(tid, env, in_scope, soft, "closing")
 
     try:
